@@ -411,8 +411,8 @@ def run(ctx):
                              ('u64', 'list')]]
     ctx.exhaustive = True
     ctx.run_cases(exh, chunk=1)
-    ctx.run_hypothesis('stack_cases', 3000 if quick else 60000)
-    ctx.run_hypothesis('convert_cases', 1500 if quick else 30000)
+    ctx.run_hypothesis('stack_cases', 3000 if quick else 300000)
+    ctx.run_hypothesis('convert_cases', 1500 if quick else 100000)
     lin = [dict(c, kind='linear', rseed=ctx.seed * 17 + i) for i, c in enumerate(
         domain.all_code_cases(3 if quick else 4, 4 if quick else 7, 2, max_n=700))
         if not (c['cls'] == 'Color666ToricCode' and c['size'][0] != c['size'][1])]
